@@ -1299,6 +1299,31 @@ class CodeGenerator(NodeVisitor):
             iteration_indicator = self.temporary_identifier()
             self.writeline(f"{iteration_indicator} = 1")
 
+        def write_iter() -> None:
+            if node.test:
+                self.write(f"{loop_filter_func}(")
+            if node.recursive:
+                self.write("reciter")
+            else:
+                if self.environment.is_async and not extended_loop:
+                    self.write("auto_aiter(")
+                self.visit(node.iter, frame)
+                if self.environment.is_async and not extended_loop:
+                    self.write(")")
+            if node.test:
+                self.write(")")
+
+        filter_iter = None
+
+        if node.test and self.environment.is_async:
+            # the filter is an async generator, close it when the loop is
+            # left early by an error, break, or the consumer going away
+            filter_iter = self.temporary_identifier()
+            self.writeline(f"{filter_iter} = ", node)
+            write_iter()
+            self.writeline("try:")
+            self.indent()
+
         self.writeline(self.choose_async("async for ", "for "), node)
         self.visit(node.target, loop_frame)
         if extended_loop:
@@ -1306,18 +1331,10 @@ class CodeGenerator(NodeVisitor):
         else:
             self.write(" in ")
 
-        if node.test:
-            self.write(f"{loop_filter_func}(")
-        if node.recursive:
-            self.write("reciter")
+        if filter_iter is not None:
+            self.write(filter_iter)
         else:
-            if self.environment.is_async and not extended_loop:
-                self.write("auto_aiter(")
-            self.visit(node.iter, frame)
-            if self.environment.is_async and not extended_loop:
-                self.write(")")
-        if node.test:
-            self.write(")")
+            write_iter()
 
         if node.recursive:
             self.write(", undefined, loop_render_func, depth):")
@@ -1337,6 +1354,13 @@ class CodeGenerator(NodeVisitor):
         self.leave_frame(
             loop_frame, with_python_scope=node.recursive and not node.else_
         )
+
+        if filter_iter is not None:
+            self.outdent()
+            self.writeline("finally:")
+            self.indent()
+            self.writeline(f"await {filter_iter}.aclose()")
+            self.outdent()
 
         if node.else_:
             self.writeline(f"if {iteration_indicator}:")
